@@ -6,6 +6,7 @@ import (
 	"go/constant"
 	"go/token"
 	"go/types"
+	"strings"
 
 	"golang.org/x/tools/go/ssa"
 )
@@ -36,6 +37,15 @@ func calleeOf(c *ssa.CallCommon) (*ssa.Function, *types.Func) {
 }
 
 // origin maps an instantiated generic function to its origin.
+// genericName: the function's name without type arguments (slices.IndexFunc[[]string string] -> IndexFunc).
+func genericName(f *ssa.Function) string {
+	n := f.Name()
+	if i := strings.Index(n, "["); i >= 0 {
+		n = n[:i]
+	}
+	return n
+}
+
 func origin(f *ssa.Function) *ssa.Function {
 	if f != nil && f.Origin() != nil {
 		return f.Origin()
@@ -161,6 +171,9 @@ type Graph struct {
 	reachOK map[*ssa.BasicBlock]bool
 	folding int // >0 while a folding decision is being computed (nested searches do not fold)
 	foldMem map[[2]*ssa.BasicBlock]int8
+	iphis   []*ssa.Phi // phis whose value decides a later branch (see initFacts)
+	iphiIdx map[*ssa.Phi]int
+	nilMem  map[[3]interface{}]byte
 }
 
 func FullGraph(fn *ssa.Function) *Graph { return &Graph{Fn: fn} }
@@ -245,8 +258,9 @@ func (a Avoid) withInstrs(ins ...ssa.Instruction) Avoid {
 // without executing an avoided instruction or taking an avoided edge. Returns a witness block path.
 func (g *Graph) PathExists(from, to IPos, av Avoid) (bool, []*ssa.BasicBlock) {
 	type st struct {
-		b    *ssa.BasicBlock
-		prev *st
+		b     *ssa.BasicBlock
+		prev  *st
+		facts string // one byte per interesting phi: 0 unknown, 1 true/nil, 2 false/non-nil
 	}
 	// scan a block from index i (inclusive); returns (hitTarget, blocked)
 	scan := func(b *ssa.BasicBlock, i int) (bool, bool) {
@@ -267,9 +281,21 @@ func (g *Graph) PathExists(from, to IPos, av Avoid) (bool, []*ssa.BasicBlock) {
 		}
 		return p
 	}
-	start := &st{b: from.B}
+	track := g.folding == 0
+	if track {
+		g.initFacts()
+		track = len(g.iphis) > 0
+	}
+	zero := ""
+	if track {
+		zero = string(make([]byte, len(g.iphis)))
+	}
+	start := &st{b: from.B, facts: zero}
 	if av.StartPrev != nil {
-		start.prev = &st{b: av.StartPrev}
+		start.prev = &st{b: av.StartPrev, facts: zero}
+		if track {
+			start.facts = g.enter(zero, av.StartPrev, from.B)
+		}
 	}
 	hit, blocked := scan(from.B, from.I+1)
 	if hit {
@@ -278,18 +304,21 @@ func (g *Graph) PathExists(from, to IPos, av Avoid) (bool, []*ssa.BasicBlock) {
 	if blocked {
 		return false, nil
 	}
-	type key struct{ p, b *ssa.BasicBlock }
+	type key struct {
+		p, b  *ssa.BasicBlock
+		facts string
+	}
 	seen := map[key]bool{}
 	queue := []*st{start}
 	for len(queue) > 0 {
 		s := queue[0]
 		queue = queue[1:]
 		succs := g.succs(s.b)
-		// edge-sensitive folding: a branch on a phi of this block whose incoming value along the edge
-		// just taken is a boolean constant follows only the matching successor (flag set before break)
-		if g.folding == 0 && s.prev != nil && len(s.b.Instrs) > 0 {
+		// path-sensitive folding: a branch on a phi (or on a nil test of a phi) whose value is known
+		// from the edge by which its block was last entered follows only the matching successor
+		if track && len(s.b.Instrs) > 0 {
 			if ifi, ok := s.b.Instrs[len(s.b.Instrs)-1].(*ssa.If); ok {
-				if v, known := g.condAlong(ifi.Cond, s.prev.b, s.b); known {
+				if v, known := g.evalCond(ifi.Cond, s.facts, 0); known {
 					var keep []Edge
 					for _, e := range succs {
 						if (e.Succ == 0) == v {
@@ -308,15 +337,22 @@ func (g *Graph) PathExists(from, to IPos, av Avoid) (bool, []*ssa.BasicBlock) {
 				continue
 			}
 			t := e.To()
-			k := key{nil, t}
-			if g.folding == 0 && blockHasPhi(t) {
-				k.p = s.b // the branch of t may depend on the edge taken
+			nf := s.facts
+			if track && blockHasPhi(t) {
+				nf = g.enter(s.facts, s.b, t)
+			}
+			k := key{nil, t, nf}
+			if blockHasPhi(t) {
+				k.p = s.b // a conditional (Via) edge of t may depend on the edge taken
 			}
 			if seen[k] {
 				continue
 			}
+			if len(seen) > 400000 {
+				return true, nil // give up precisely: assume a path (sound for must-queries)
+			}
 			seen[k] = true
-			ns := &st{b: t, prev: s}
+			ns := &st{b: t, prev: s, facts: nf}
 			hit, blocked := scan(t, 0)
 			if hit {
 				return true, witness(ns)
@@ -328,6 +364,176 @@ func (g *Graph) PathExists(from, to IPos, av Avoid) (bool, []*ssa.BasicBlock) {
 		}
 	}
 	return false, nil
+}
+
+// initFacts finds the phis whose value decides a later branch: boolean phis tested by an If and
+// nil-able phis compared with nil for an If (directly, through negation, or through another such phi).
+func (g *Graph) initFacts() {
+	if g.iphiIdx != nil {
+		return
+	}
+	g.iphiIdx = map[*ssa.Phi]int{}
+	var feedsIf func(v ssa.Value, d int) bool
+	feedsIf = func(v ssa.Value, d int) bool {
+		if d > 4 || v.Referrers() == nil {
+			return false
+		}
+		for _, r := range *v.Referrers() {
+			switch x := r.(type) {
+			case *ssa.If:
+				return true
+			case *ssa.UnOp:
+				if x.Op == token.NOT && feedsIf(x, d+1) {
+					return true
+				}
+			case *ssa.BinOp:
+				if (x.Op == token.EQL || x.Op == token.NEQ) && (isNilConst(x.X) || isNilConst(x.Y)) && feedsIf(x, d+1) {
+					return true
+				}
+			case *ssa.Phi:
+				if x != v && feedsIf(x, d+1) {
+					return true
+				}
+			}
+		}
+		return false
+	}
+	for _, b := range g.Fn.Blocks {
+		for _, in := range b.Instrs {
+			phi, ok := in.(*ssa.Phi)
+			if !ok {
+				break
+			}
+			isBool := false
+			if bt, ok := phi.Type().Underlying().(*types.Basic); ok && bt.Kind() == types.Bool {
+				isBool = true
+			}
+			if !isBool && !nilableType(phi.Type()) {
+				continue
+			}
+			if feedsIf(phi, 0) {
+				g.iphiIdx[phi] = len(g.iphis)
+				g.iphis = append(g.iphis, phi)
+			}
+		}
+	}
+}
+
+func nilableType(t types.Type) bool {
+	switch t.Underlying().(type) {
+	case *types.Pointer, *types.Interface, *types.Map, *types.Slice, *types.Signature, *types.Chan:
+		return true
+	}
+	return false
+}
+
+// enter computes the facts after control moves from p into b.
+func (g *Graph) enter(facts string, p, b *ssa.BasicBlock) string {
+	var out []byte
+	for _, in := range b.Instrs {
+		phi, ok := in.(*ssa.Phi)
+		if !ok {
+			break
+		}
+		i, interesting := g.iphiIdx[phi]
+		if !interesting {
+			continue
+		}
+		var f byte
+		if inc := incomingFrom(phi, p); inc != nil {
+			f = g.factOf(inc, facts, p, b)
+		}
+		if out == nil {
+			out = []byte(facts)
+		}
+		out[i] = f
+	}
+	if out == nil {
+		return facts
+	}
+	return string(out)
+}
+
+// factOf: what is known about value v when control leaves p for b, given the facts so far.
+func (g *Graph) factOf(v ssa.Value, facts string, p, b *ssa.BasicBlock) byte {
+	if cb, ok := constBool(v); ok {
+		if cb {
+			return 1
+		}
+		return 2
+	}
+	if ph, ok := v.(*ssa.Phi); ok {
+		if i, ok := g.iphiIdx[ph]; ok {
+			return facts[i]
+		}
+		return 0
+	}
+	if bt, ok := v.Type().Underlying().(*types.Basic); ok && bt.Kind() == types.Bool {
+		if val, known := g.evalCond(v, facts, 0); known {
+			if val {
+				return 1
+			}
+			return 2
+		}
+		return 0
+	}
+	if !nilableType(v.Type()) {
+		return 0
+	}
+	k := [3]interface{}{v, p, b}
+	if g.nilMem == nil {
+		g.nilMem = map[[3]interface{}]byte{}
+	}
+	if m, ok := g.nilMem[k]; ok {
+		return m
+	}
+	g.folding++
+	n := byte(g.nilnessAtEnd(v, p, b, 0))
+	g.folding--
+	g.nilMem[k] = n
+	return n
+}
+
+// evalCond evaluates a branch condition under the facts.
+func (g *Graph) evalCond(c ssa.Value, facts string, depth int) (bool, bool) {
+	if depth > 4 {
+		return false, false
+	}
+	switch x := c.(type) {
+	case *ssa.Const:
+		if cb, ok := constBool(x); ok {
+			return cb, true
+		}
+	case *ssa.UnOp:
+		if x.Op == token.NOT {
+			v, k := g.evalCond(x.X, facts, depth+1)
+			return !v, k
+		}
+	case *ssa.Phi:
+		if i, ok := g.iphiIdx[x]; ok && facts[i] != 0 {
+			return facts[i] == 1, true
+		}
+	case *ssa.BinOp:
+		if x.Op != token.EQL && x.Op != token.NEQ {
+			return false, false
+		}
+		var o ssa.Value
+		switch {
+		case isNilConst(x.Y):
+			o = x.X
+		case isNilConst(x.X):
+			o = x.Y
+		default:
+			return false, false
+		}
+		if ph, ok := o.(*ssa.Phi); ok {
+			if i, ok := g.iphiIdx[ph]; ok && facts[i] != 0 {
+				isNil := facts[i] == 1
+				return isNil == (x.Op == token.EQL), true
+			}
+		}
+	}
+	return false, false
 }
 
 // resolveAt follows v through phis whose other incoming values cannot reach the instruction at `at`
@@ -690,6 +896,28 @@ func condEdgesD(c ssa.Value, depth int) []truthEdge {
 		case *ssa.Phi:
 			// a named condition (x := a && b; if x …): on the path pred_i → phi block → successor the
 			// phi has the value that flowed in from pred_i
+			// short-circuit value (x := a && c, x := a || c): wherever the phi is tested, phi true implies c
+			// true when every other incoming value is the constant false (dually for ||)
+			othersFalse, othersTrue := true, true
+			for _, in := range r.Edges {
+				if in == c {
+					continue
+				}
+				cb, isC := constBool(in)
+				if !isC || cb {
+					othersFalse = false
+				}
+				if !isC || !cb {
+					othersTrue = false
+				}
+			}
+			if othersFalse || othersTrue {
+				for _, e := range condEdgesD(r, depth+1) {
+					if e.Via == nil && ((othersFalse && e.truth) || (othersTrue && !e.truth)) {
+						out = append(out, truthEdge{e.Edge, e.truth})
+					}
+				}
+			}
 			for i, in := range r.Edges {
 				if in != c {
 					continue
@@ -1394,7 +1622,7 @@ func readOnlySliceUse(ld *ssa.UnOp) bool {
 			if bi, ok := r.Call.Value.(*ssa.Builtin); ok && (bi.Name() == "len" || bi.Name() == "cap") {
 				continue
 			}
-			if f, _ := calleeOf(r.Common()); f != nil && (fnPkgPath(f) == "slices" && (f.Name() == "Contains" || f.Name() == "Index")) {
+			if f, _ := calleeOf(r.Common()); f != nil && (fnPkgPath(f) == "slices" && (genericName(f) == "Contains" || genericName(f) == "Index")) {
 				continue
 			}
 			return false
